@@ -124,6 +124,17 @@ def primitives(ctx, n):
             ctx.expect(r.ok and len(r.b(0)) == out, "expand to %d bytes" % out)
         else:
             ctx.expect(not r.ok, "expand refuses a short PRK / more than 255 blocks")
+    x25519_arbitrary_shares(ctx, n)
+    if L.ke == "X25519":
+        # ... and inside the protocol: the server answers a KE1 whose client share is an arbitrary u-coordinate; the 3DH
+        # input, server MAC, pending state and session key are the RFC's (byte comparison with the model)
+        f = honest_flow(ctx, b"pw", b"alice", b"ctx", None, None)
+        for u in [ctx.tape(32) for _ in range(4)] + [v.to_bytes(32, "little") for v in (2, 5, 10)]:
+            if not ctx.call("ke_pk", u).ok:
+                continue
+            ke1 = f.ke1[:L.Noe + NN] + u
+            r = ctx.call("srv_login_start", ctx.tape(64 + L.Nsk + 16), f.setup, f.file, ke1, b"alice", b"ctx", None, None)
+            ctx.expect(r.ok, "server answers a request whose key share is an arbitrary u-coordinate")
     elems, scalars = [], []
     for _ in range(n // 2 + 4):
         msg, dst = ctx.tape(rnd.randrange(0, 300)), ctx.tape(rnd.randrange(1, 200))
